@@ -56,6 +56,17 @@ static int run_case(const struct kase *k, struct res *r, int verbose) {
         if (rn != n || memcmp(refph, b.out, n)) FAIL("phrase", "phrase differs from the reference: got \"%.150s\" expected \"%.150s\"", b.out, refph);
         uint8_t st2[32]; polyseed_store(s, st2); r->calls++;
         if (memcmp(st2, st, 32)) FAIL("store", "store differs from reference serialisation (check value bytes %02x%02x expected %02x%02x)", st2[30], st2[31], st[30], st[31]);
+        /* the phrase restores: a conforming phrase (the reference one, which equals what was emitted) is accepted by both decoders, and
+         * the restored seed writes the same phrase and serialisation again (word 1 included - the check value travels with the seed) */
+        { polyseed_data *d = NULL; int ds = polyseed_decode_explicit(refph, k->coin, lang, &d); r->calls++;
+          if (ds != POLYSEED_OK) FAIL("restore", "the reference phrase is refused by decode_explicit with status %d (phrase \"%.120s\")", ds, refph);
+          polyseed_str re; memset(re, 0x5C, sizeof re); size_t rn2 = polyseed_encode(d, lang, k->coin, re); r->calls++;
+          uint8_t st3[32]; polyseed_store(d, st3); polyseed_free(d); r->calls += 2;
+          if (rn2 != n || memcmp(re, refph, n + 1)) FAIL("restored-phrase", "a seed restored by decode_explicit writes a different phrase: \"%.150s\" instead of \"%.150s\"", re, refph);
+          if (memcmp(st3, st, 32)) FAIL("restored-store", "a seed restored by decode_explicit serialises differently (check value bytes %02x%02x expected %02x%02x)", st3[30], st3[31], st[30], st[31]);
+          d = NULL; int as = polyseed_decode(refph, k->coin, NULL, &d); r->calls++;
+          if (as == POLYSEED_OK) { rn2 = polyseed_encode(d, lang, k->coin, re); polyseed_store(d, st3); polyseed_free(d); r->calls += 3; if (rn2 != n || memcmp(re, refph, n + 1) || memcmp(st3, st, 32)) FAIL("restored-auto", "a seed restored by decode (automatic detection) writes a different phrase or serialisation"); }
+          else if (as != POLYSEED_ERR_MULT_LANG) FAIL("restore-auto", "the reference phrase is refused by decode with status %d", as); }
         /* purity: unrelated work on another seed, another mask, then encode again */
         polyseed_data *o = NULL;
         polyseed_enable_features(k->mask ^ 5);
